@@ -22,7 +22,7 @@ CLAIMED = {
     'C12': ('dsim-storage', 'World S: text formats to string/file across nodes, encodings, dialects, path overwrite; independent reference reader/writer',
             'deterministic simulation: seeded write/read/overwrite/restart histories across peer processes vs independent reference codecs'),
     'C13': ('dsim-defs', 'World D: seeded edit histories of several live definitions; every live definition compared with an ordered-table model after every event',
-            'deterministic simulation: seeded edit histories incl. rejected calls and set-order seam vs ordered-table model'),
+            'deterministic simulation: seeded edit histories of several live definitions incl. rejected calls vs ordered-table model'),
     'C14': ('dsim-defs', 'World D: derive-then-edit histories; non-interference ledger over all live definitions; Context<->Definition conversions',
             'deterministic simulation: derive-then-edit histories vs ordered-table model, aliasing audit of all live objects after every event'),
     'C17': ('dsim-xproc', 'World X: the same plans executed in several fresh interpreters with different PYTHONHASHSEED (ASLR on and off); transcripts must be byte-identical',
